@@ -50,9 +50,14 @@ const (
 	bUnordered   = "unordered-list"
 	bEmpty       = "empty-list"
 	bLibraryExec = "library-batch-executor"
+	// bHangsUp: the server reads a Discover Versions request and closes the connection without a word, every time (an
+	// appliance that chokes on the operation, a server that restarts); every other request is answered. The server has
+	// advertised nothing then: connecting fails, or - reading the hang-up as "discovery unsupported" - ends on 1.0 if the
+	// client's set has it; in no case is a version outside the configured set adopted.
+	bHangsUp = "hangs-up-on-discovery"
 )
 
-var behaviours = []string{bConformant, bUnsupported, bNotOffered, bUnordered, bEmpty, bLibraryExec}
+var behaviours = []string{bConformant, bUnsupported, bNotOffered, bUnordered, bEmpty, bLibraryExec, bHangsUp}
 
 type c13Case struct {
 	ClientMask int    `json:"client_set_mask"` // bit i = version 1.i
@@ -151,6 +156,9 @@ func (s *negServer) serve(c net.Conn) {
 		}
 		s.mu.Unlock()
 		switch {
+		case isDiscover && s.c.Behaviour == bHangsUp:
+			_ = c.Close()
+			return
 		case s.c.Behaviour == bLibraryExec:
 			resp = s.exec.HandleRequest(context.Background(), &req)
 		case isDiscover && s.c.Behaviour == bUnsupported:
@@ -255,6 +263,13 @@ func c13Run(c c13Case) (sig string, err error) {
 		} else {
 			mustFail = true
 		}
+	case c.Behaviour == bHangsUp:
+		if contains(clientSet, kmip.V1_0) {
+			v := kmip.V1_0
+			want, mayFail = &v, true
+		} else {
+			mustFail = true
+		}
 	default:
 		adv := srv.advertised(clientSet)
 		if c.Behaviour == bLibraryExec {
@@ -340,7 +355,7 @@ func c13Run(c c13Case) (sig string, err error) {
 
 func TestC13Negotiation(t *testing.T) {
 	const name = "TestC13Negotiation"
-	rec := evid.New("C13", name, "exhaustive: 31 non-empty client sets x 32 server sets x 6 server behaviours (conformant descending intersection, discovery unsupported, lists versions not offered, unordered list, empty list, the library's own BatchExecutor restricted to the set, also after an earlier client with another set has negotiated with the same executor) without enforcement, "+
+	rec := evid.New("C13", name, "exhaustive: 31 non-empty client sets x 32 server sets x 7 server behaviours (conformant descending intersection, discovery unsupported, lists versions not offered, unordered list, empty list, hanging up on every discovery request, the library's own BatchExecutor restricted to the set, also after an earlier client with another set has negotiated with the same executor) without enforcement, "+
 		"plus the same client set handed over through up to five other option layouts (descending, one WithKmipVersions option per version, two halves, highest first with a duplicate, rotated) against the conformant, unordered and library servers, plus clients with default options (no version option at all) against every server, plus clients created with DialCluster against the conformant, discovery-less and library servers, plus 31 x 32 x 5 enforced versions against the conformant server; each followed by two requests, a batch containing a Discover Versions item, and a clone; oracle: pure function of the configuration (highest common version / fallback to 1.0 / failure); "+
 		"non-trivial = the intersection has >= 2 elements, or the server lists a version outside the client's set, or the list is unordered; distinct by case").Attach(t)
 	rec.Exhaustive(true)
